@@ -114,6 +114,10 @@ def main():
                         target = target.force_local()
                     elif op.get("how") == "partial":
                         target = target.partial()
+                    elif op.get("how") == "chain2":       # through two / three chained modifiers
+                        target = target.partial().force_local()
+                    elif op.get("how") == "chain3":
+                        target = target.force_local().partial().monitor_progress()
                     ev["how"] = op.get("how", "plain")
                     ev["got"] = jsonable(target(arg, fnarg=getattr(mod, op["fnarg"])) if op.get("fnarg") else target(arg))
                 except Exception as e:
